@@ -51,7 +51,9 @@ def c07(tier):
             want_tok = sid_uuid(st["tok"]) if st["tok"] else ""
             if ob["status"] not in ("OK", "200"):
                 ck.violation("page fetch failed with %s" % ob["status"], ctx)
-            elif ob["rows"] != st["rows"]:
+            elif "dup:true" in r["shape"] and len(ob["rows"]) != len(st["rows"]):
+                ck.violation("a page of copies of one relationship has %d entries, the pager model says %d" % (len(ob["rows"]), len(st["rows"])), dict(ctx, expected=st["rows"]))
+            elif "dup:true" not in r["shape"] and ob["rows"] != st["rows"]:
                 ck.violation("page contents differ from the pager model", dict(ctx, expected=st["rows"], observed=ob["rows"]))
             elif ob["tok"] != want_tok:
                 ck.violation("next_page_token differs from the pager model", dict(ctx, expected=want_tok, observed=ob["tok"]))
@@ -68,7 +70,7 @@ def c07(tier):
             ctx = {"rows": s["n"], "page_size": s["size"], "sent_page_size": r["send"], "via": ["rest", "grpc", "manager"][r["via"]]}
             if r["status"] != "OK":
                 ck.violation("paging failed with %s" % r["status"], ctx)
-            elif r["lens"] != s["lens"] or r["last"] != s["last"]:
+            elif r["lens"] != s["lens"] or (not r.get("dup") and r["last"] != s["last"]):
                 ck.violation("page structure differs from the pager model", dict(ctx, expected_lens=s["lens"], observed_lens=r["lens"],
                                                                               expected_last=s["last"][:5], observed_last=(r["last"] or [])[:5]))
             if s["n"] > s["size"]:
@@ -87,7 +89,7 @@ def c07(tier):
     ck.extra["behaviours"] = len(behaviours)
     ck.extra["size_tables"] = len(sizes)
     ck.rule = ("Pager.tla behaviours (insert at a chosen storage position / delete / begin iteration / fetch) replayed page by page over REST, gRPC "
-               "and the Manager with 8 query shapes, storage positions imposed through shard_id; size tables around the page-size boundaries; "
+               "and the Manager with 9 query shapes (one of them: all four fields given and every matching row a copy of the same relationship), storage positions imposed through shard_id; size tables around the page-size boundaries; "
                "malformed tokens; non-trivial: a fetch right after an interleaved write, or a table larger than the page size")
     ck.assumptions = ["sqlite in-memory backend only", "storage order is imposed by rewriting shard_id after the insert"]
     ck.finish()
